@@ -1,6 +1,7 @@
 package mon
 
 import (
+	"context"
 	"errors"
 	"fmt"
 	"net/url"
@@ -201,7 +202,8 @@ type c18Fault struct {
 	kind string
 }
 
-var c18Kinds = []string{"generic", "not_found", "inactive", "serialization", "crash"}
+// "canceled": the request context ends at that call (the caller hung up, a deadline passed) and the store reports it
+var c18Kinds = []string{"generic", "not_found", "inactive", "serialization", "crash", "canceled"}
 
 func faultErr(kind string) error {
 	switch kind {
@@ -211,6 +213,8 @@ func faultErr(kind string) error {
 		return fosite.ErrInactiveToken
 	case "serialization":
 		return fosite.ErrSerializationFailure
+	case "canceled":
+		return context.Canceled
 	}
 	return errors.New("injected storage failure " + StorageCanary)
 }
@@ -371,6 +375,9 @@ func c18One(c *run.Ctx, fl c18Flow, db, jwt bool, mk func() (*c18State, bool), r
 					injectedInTx = true
 				}
 				panic(world.Crash{At: cl.Method})
+			}
+			if f1.kind == "canceled" {
+				w.CancelOp(cl.Op)
 			}
 			return faultErr(f1.kind)
 		}
